@@ -104,11 +104,11 @@ func (s *receiveLog) missingSeqNumbers(skipLastN uint16, missingPacketSeqNums []
 	s.m.RLock()
 	defer s.m.RUnlock()
 
-	until := s.end - skipLastN
-	if until-s.lastConsecutive >= rtpbuffer.Uint16SizeHalf {
+	if skipLastN > s.end-s.lastConsecutive {
 		// until < s.lastConsecutive (counting for rollover)
 		return nil
 	}
+	until := s.end - skipLastN
 
 	c := 0
 	for i := s.lastConsecutive + 1; i != until+1; i++ {
